@@ -21,6 +21,9 @@ struct RouteId(u32);
 
 impl RouteId {
     fn next() -> Self {
+        #[cfg(bmwill_anemo_verif)]
+        use crate::verif::atomic::{AtomicU32, Ordering};
+        #[cfg(not(bmwill_anemo_verif))]
         use std::sync::atomic::{AtomicU32, Ordering};
         // `AtomicU64` isn't supported on all platforms
         static ID: AtomicU32 = AtomicU32::new(0);
